@@ -28,7 +28,7 @@ contract(M + 'compress_matrix', props=['C11', 'C02'],
                   "result[tri_rank(r, c, full_matrix.shape[0])] == full_matrix[r, c]))",
                   "fresh(result)"])
 
-contract(M + '_uncompress_upper_triangle', props=['C11'],
+contract(M + '_uncompress_upper_triangle', props=['C11'], ghost={'mode': 'lambda'},
          params=dict(compressed_tri='arr1[real]'), returns='arr2[real]',
          requires=["exists(lambda n: n >= 0 and 2*compressed_tri.shape[0] == n*(n+1))"],
          ensures=["result.shape[0] == result.shape[1]", "result.shape[0] >= 0",
